@@ -125,6 +125,9 @@ class CBloomFilter(bitcoin.core.serialize.Serializable):
         if isinstance(elem, bitcoin.core.COutPoint):
             elem = elem.serialize()
 
+        if len(self.vData) == 0: # Avoid divide-by-zero (CVE-2013-5700)
+            return
+
         if len(self.vData) == 1 and self.vData[0] == 0xff:
             return
 
@@ -140,6 +143,9 @@ class CBloomFilter(bitcoin.core.serialize.Serializable):
         """
         if isinstance(elem, bitcoin.core.COutPoint):
             elem = elem.serialize()
+
+        if len(self.vData) == 0: # Avoid divide-by-zero (CVE-2013-5700)
+            return True
 
         if len(self.vData) == 1 and self.vData[0] == 0xff:
             return True
